@@ -18,6 +18,7 @@ import (
 	"fmt"
 	"io"
 	"os"
+	"os/exec"
 	"strconv"
 	"strings"
 	"sync"
@@ -63,6 +64,7 @@ type c16Case struct {
 	endData []byte // send-exit payload
 	class   string
 	multi   bool // some payload exceeds the read size
+	escapeOff bool // openssh: EscapeChar=none is among the ssh arguments
 }
 
 type c16Read struct {
@@ -176,11 +178,29 @@ func c16TransportOpts(kind, mode string, opening []byte, seed uint64) ([]util.Op
 				want = "subsystem:netconf"
 			}
 			if s.Kind != want || (mode == "shell" && !s.PTY) {
-				_ = s.Close()
+				s.Shutdown()
 				srv.Close()
 				return nil, fmt.Errorf("ssh server saw session kind %q pty=%v, expected %q", s.Kind, s.PTY, want)
 			}
-			return &c16Conn{peer: s, cleanup: func() { _ = s.Close(); srv.Close() }}, nil
+			return &c16Conn{peer: s, cleanup: func() { s.Shutdown(); srv.Close() }}, nil
+		}, nil
+	case "openssh":
+		// the system transport with the real OpenSSH client (`ssh` from PATH) talking to the in-process
+		// server; authentication is in-channel (password prompt on the pty)
+		srv, err := sim.NewSSHServer(seed)
+		if err != nil {
+			return nil, nil, err
+		}
+		opts := []util.Option{options.WithPort(srv.Port), options.WithAuthNoStrictKey(),
+			options.WithAuthUsername("u"), options.WithAuthPassword("p"),
+			options.WithTimeoutSocket(c16OpenBound), c16Netconf(mode == "netconf")}
+		return opts, func() (*c16Conn, error) {
+			s, err := srv.NextSession(c16OpenBound)
+			if err != nil {
+				srv.Close()
+				return nil, err
+			}
+			return &c16Conn{peer: s, cleanup: func() { s.Shutdown(); srv.Close() }}, nil
 		}, nil
 	case "system":
 		l, err := sim.Listen()
@@ -363,6 +383,11 @@ func c16GenCase(kind, mode string, n int, class string, seed uint64, res *vlib.R
 		}
 	}
 	cs.ending = []string{"drain-close", "block-close", "block-exit", "send-exit"}[r.Intn(4)]
+	if kind == "openssh" && (cs.ending == "block-exit" || cs.ending == "send-exit") {
+		// when the server ends the session the ssh client writes its own "Connection to … closed."
+		// onto the pty before it exits; peer-exit endings are exercised with the stand-in relay
+		cs.ending = "block-close"
+	}
 	if cs.ending == "send-exit" {
 		cs.endData = c16Payload(r, c16Size(r, n, res))
 	}
@@ -402,23 +427,75 @@ func (rd *c16Reader) wait(d time.Duration) (c16Read, bool) {
 	}
 }
 
+// c16ReadUntil reads (and discards) until the accumulated bytes end with suffix.
+func c16ReadUntil(rd *c16Reader, suffix []byte, d time.Duration) bool {
+	var acc []byte
+	deadline := time.Now().Add(d)
+	for !bytes.HasSuffix(acc, suffix) {
+		rd.start(0)
+		r, ok := rd.wait(time.Until(deadline))
+		if !ok || r.err != nil {
+			return false
+		}
+		acc = append(acc, r.data...)
+	}
+	return true
+}
+
+// c16NoEscape replaces every '~' that follows CR or LF (or starts the payload) by '-'.
+func c16NoEscape(b []byte) []byte {
+	out := append([]byte{}, b...)
+	for i := range out {
+		if out[i] == '~' && (i == 0 || out[i-1] == '\n' || out[i-1] == '\r') {
+			out[i] = '-'
+		}
+	}
+	return out
+}
+
 func c16ReadFull(p io.Reader, n int, d time.Duration) ([]byte, error) {
 	type rr struct {
 		b   []byte
 		err error
 	}
 	ch := make(chan rr, 1)
+	var mu sync.Mutex
+	b := make([]byte, n)
+	k := 0
 	go func() {
-		b := make([]byte, n)
-		k, err := io.ReadFull(p, b)
-		ch <- rr{b[:k], err}
+		var err error
+		for err == nil {
+			mu.Lock()
+			if k == n {
+				mu.Unlock()
+				break
+			}
+			mu.Unlock()
+			tmp := make([]byte, c16min(n-k, 1<<16))
+			var m int
+			m, err = p.Read(tmp)
+			mu.Lock()
+			copy(b[k:], tmp[:m])
+			k += m
+			mu.Unlock()
+		}
+		ch <- rr{nil, err}
 	}()
 	select {
 	case r := <-ch:
-		return r.b, r.err
+		return b[:k], r.err
 	case <-time.After(d):
-		return nil, errors.New("peer did not receive the bytes within bound")
+		mu.Lock()
+		defer mu.Unlock()
+		return append([]byte{}, b[:k]...), errors.New("peer did not receive the bytes within bound")
 	}
+}
+
+func c16max(a, b int) int {
+	if a > b {
+		return a
+	}
+	return b
 }
 
 func c16Short(b []byte) string {
@@ -456,7 +533,7 @@ func c16RunCase(cs *c16Case, seed uint64) *c16Out {
 		return o
 	}
 	opts = append(opts, options.WithTransportReadSize(cs.n))
-	tr, err := transport.NewTransport(log, "127.0.0.1", cs.kind, opts...)
+	tr, err := transport.NewTransport(log, "127.0.0.1", c16TType(cs.kind), opts...)
 	if err != nil {
 		o.fail("oracle", "c16:"+cs.kind+":new-transport", "NewTransport: %v", err)
 		o.aborted = true
@@ -467,12 +544,44 @@ func c16RunCase(cs *c16Case, seed uint64) *c16Out {
 		o.aborted = true
 		return o
 	}
+	rd := c16NewReader(tr)
+	defer close(rd.req)
+	if cs.kind == "openssh" {
+		// in-channel login by hand: wait for the client's password prompt on the pty, answer it
+		if !c16ReadUntil(rd, []byte("password: "), c16OpenBound) {
+			_ = tr.Close(true)
+			o.fail("oracle", "c16:openssh:open-failed", "no password prompt from the ssh client within %v", c16OpenBound)
+			o.aborted = true
+			return o
+		}
+		_ = tr.Write([]byte("p\n"))
+	}
 	conn, err := peerOf()
 	if err != nil {
 		_ = tr.Close(true)
 		o.fail("oracle", "c16:"+cs.kind+":open-failed", "peer side of the connection: %v", err)
 		o.aborted = true
 		return o
+	}
+	if cs.kind == "openssh" {
+		// "after the session is up": everything up to the marker (ssh's own chatter) is not measured
+		marker := []byte("\x02C16-SESSION-UP\x03")
+		_, _ = conn.peer.Write(marker)
+		if !c16ReadUntil(rd, marker, c16OpenBound) {
+			_ = tr.Close(true)
+			conn.cleanup()
+			o.fail("oracle", "c16:openssh:open-failed", "session marker did not arrive within %v", c16OpenBound)
+			o.aborted = true
+			return o
+		}
+		cs.escapeOff = false
+		if sys, ok := tr.Impl.(*transport.System); ok {
+			for _, a := range sys.OpenArgs {
+				if strings.EqualFold(a, "EscapeChar=none") {
+					cs.escapeOff = true
+				}
+			}
+		}
 	}
 	closed := false
 	defer func() {
@@ -512,8 +621,6 @@ func c16RunCase(cs *c16Case, seed uint64) *c16Out {
 	closeQ := func() { qOnce.Do(func() { close(peerQ) }) }
 	defer closeQ()
 
-	rd := c16NewReader(tr)
-	defer close(rd.req)
 	var got []byte
 	target := func() int { return len(cs.ib) + len(o.sent) }
 	// one completed read
@@ -563,6 +670,20 @@ func c16RunCase(cs *c16Case, seed uint64) *c16Out {
 				return o
 			}
 		case "write":
+			if cs.kind == "openssh" {
+				// the OpenSSH client writes to its tty with blocking writes: while output the client
+				// has not read fills the pty, ssh does not read its input either. scrapligo's channel
+				// always reads concurrently; the script reads what is outstanding before it writes.
+				if !drain(0, 0) {
+					return o
+				}
+			}
+			if cs.kind == "openssh" && !cs.escapeOff {
+				// the ssh client interprets '~' at the start of a line (escape character) unless
+				// EscapeChar=none is among its arguments; that defect has its own session check,
+				// the byte-pipe histories stay clear of it
+				st.data = c16NoEscape(st.data)
+			}
 			o.events = append(o.events, "w"+vlib.Hex(st.data))
 			o.written = append(o.written, st.data...)
 			werr := make(chan error, 1)
@@ -572,7 +693,12 @@ func c16RunCase(cs *c16Case, seed uint64) *c16Out {
 			pg, err := c16ReadFull(conn.peer, len(st.data), c16ReadBound)
 			o.peerGot = append(o.peerGot, pg...)
 			if err != nil {
-				o.fail("oracle", "c16:"+cs.kind+":write-lost", "client wrote %d byte(s), peer received %d: %v", len(st.data), len(pg), err)
+				i := c16FirstDiff(pg, st.data[:c16min(len(pg), len(st.data))])
+				if i < 0 {
+					i = len(pg)
+				}
+				o.fail("oracle", "c16:"+cs.kind+":write-lost", "client wrote %d byte(s), peer received %d: %v; first difference at offset %d: got %s, written %s (preceded by %s)",
+					len(st.data), len(pg), err, i, c16Short(pg[i:]), c16Short(st.data[i:]), c16Short(st.data[c16max(0, i-8):i]))
 				o.aborted = true
 				return o
 			}
@@ -660,14 +786,14 @@ func c16RunCase(cs *c16Case, seed uint64) *c16Out {
 	case "block-close":
 		blockedThen(closeForce, "c", "Close(true)", "not-unblocked-by-close")
 	case "block-exit":
-		blockedThen(func() { closeQ(); peerWG.Wait(); _ = conn.peer.Close() }, "x", "the peer went away", "not-unblocked-by-peer-exit")
+		blockedThen(func() { closeQ(); peerWG.Wait(); sim.PeerExit(conn.peer) }, "x", "the peer went away", "not-unblocked-by-peer-exit")
 	case "send-exit":
 		peerSend(cs.endData, []int{len(cs.endData)})
 		closeQ()
 		// the peer can only go away once its bytes are on their way; with a payload larger than the
 		// buffers in between that needs the client to read, so the exit happens beside the reads
 		exited := make(chan struct{})
-		go func() { peerWG.Wait(); _ = conn.peer.Close(); close(exited) }()
+		go func() { peerWG.Wait(); sim.PeerExit(conn.peer); close(exited) }()
 		if !drain(0, 0) {
 			return o
 		}
@@ -819,12 +945,25 @@ func runC16(c *ctx) {
 			return
 		}
 		cases = append(cases, cs)
+		desc := []string{}
+		for _, st := range cs.steps {
+			desc = append(desc, fmt.Sprintf("%s(%d bytes, %d pieces, maxReads %d, readN %d)", st.op, len(st.data), len(st.cuts), st.maxReads, st.readN))
+		}
+		res.Note("replayed case: kind=%s mode=%s n=%d opening=%x steps=[%s] ending=%s(%d bytes)", cs.kind, cs.mode, cs.n, cs.opening, strings.Join(desc, " "), cs.ending, len(cs.endData))
 	} else {
 		r := c.rng
 		type km struct{ kind, mode string }
 		kms := []km{{"system", "shell"}, {"system", "netconf"}, {"standard", "shell"}, {"standard", "netconf"}, {"telnet", "shell"}}
-		per := c.n(9, 120)
+		per := c.n(36, 400)
+		if _, err := exec.LookPath("ssh"); err == nil {
+			kms = append(kms, km{"openssh", "shell"})
+		} else {
+			res.Note("no ssh binary in PATH: byte-pipe histories over the system transport with the real OpenSSH client skipped")
+		}
 		for _, k := range kms {
+			if k.kind == "openssh" {
+				per = c.n(12, 150)
+			}
 			for i := 0; i < per; i++ {
 				n := c16ReadSizes[(i+r.Intn(2))%len(c16ReadSizes)]
 				if r.Chance(1, 4) {
@@ -880,7 +1019,7 @@ func runC16(c *ctx) {
 		if len(outs[i].events) > 0 {
 			ev = strings.Join(outs[i].events, ",")
 		}
-		lines = append(lines, fmt.Sprintf("c16 run %s %s %s", cs.kind, vlib.Hex(cs.ib), ev))
+		lines = append(lines, fmt.Sprintf("c16 run %s %s %s", c16TType(cs.kind), vlib.Hex(cs.ib), ev))
 	}
 	if p := os.Getenv("C16_DUMP"); p != "" {
 		_ = os.WriteFile(p, []byte(strings.Join(lines, "\n")+"\n"), 0o644)
